@@ -33,7 +33,7 @@ func init() {
 
 func isArchMethod(site ssa.CallInstruction, name string) bool {
 	sc := site.Common().StaticCallee()
-	return sc != nil && sc.Name() == name && (typeName(recvType(sc)) == "archetype" || typeName(recvType(sc)) == "archetypeAccess")
+	return sc != nil && cname(sc) == name && (typeName(recvType(sc)) == "archetype" || typeName(recvType(sc)) == "archetypeAccess")
 }
 
 // entitiesIndexStore: if st stores into World.entities[<id of E>](.field), returns E's cell path and the field ("" for whole struct).
@@ -300,7 +300,31 @@ func c01r3(p *Prog, r *Reporter) {
 			}
 			// id comes from a range over S's id list (Components() of S, or S.node.Ids)
 			idSrc := apath(args[2])
-			if !strings.Contains(idSrc, "call(Components)[") && !strings.Contains(idSrc, ".Ids[") {
+			idListOK := strings.Contains(idSrc, "call(Components)[") || strings.Contains(idSrc, ".Ids[")
+			if !idListOK {
+				// the id list is a parameter of a helper: at every call site it must be a table's id list
+				if ld, ok := args[2].(*ssa.UnOp); ok {
+					if ia, ok := ld.X.(*ssa.IndexAddr); ok {
+						if pr, ok := ia.X.(*ssa.Parameter); ok && pr.Parent() == fn {
+							nsites, all := 0, true
+							for _, g := range p.Funcs {
+								for _, cs := range callsIn(g) {
+									if !isCallTo(cs, fn) {
+										continue
+									}
+									nsites++
+									a := apath(cs.Common().Args[paramIndex(pr)])
+									if !strings.Contains(a, "call(Components)") && !strings.HasSuffix(a, ".Ids") {
+										all = false
+									}
+								}
+							}
+							idListOK = nsites > 0 && all
+						}
+					}
+				}
+			}
+			if !idListOK {
 				bad = append(bad, "the column id does not range over the source table's id list: "+idSrc)
 			}
 			// admissible filter: the only conditional between loop header and the copy is mask.Get(id)
@@ -314,7 +338,7 @@ func c01r3(p *Prog, r *Reporter) {
 					continue // loop condition
 				}
 				c := callOf(atom)
-				if c != nil && c.Common().StaticCallee() != nil && c.Common().StaticCallee().Name() == "Get" && typeName(recvType(c.Common().StaticCallee())) == "Mask" && apath(c.Common().Args[1]) == apath(args[2]) {
+				if c != nil && c.Common().StaticCallee() != nil && cname(c.Common().StaticCallee()) == "Get" && typeName(recvType(c.Common().StaticCallee())) == "Mask" && apath(c.Common().Args[1]) == apath(args[2]) {
 					continue
 				}
 				if !dominatesBlock(d, b) || !reaches(d, b) {
@@ -357,7 +381,11 @@ func sameInnermostLoop(a, b *ssa.BasicBlock) bool {
 
 func c01r5(p *Prog, r *Reporter) {
 	for _, fn := range p.Funcs {
-		if typeName(recvType(fn)) != "archetype" {
+		root := fn
+		for root.Parent() != nil { // closures inside archetype methods
+			root = root.Parent()
+		}
+		if typeName(recvType(root)) != "archetype" {
 			continue
 		}
 		name := p.FuncName(fn)
@@ -431,7 +459,7 @@ func c01r5(p *Prog, r *Reporter) {
 				found := false
 				for _, site := range callsIn(fn) {
 					sc := site.Common().StaticCallee()
-					if sc == nil || sc.Pkg == nil || sc.Pkg.Pkg.Path() != "reflect" || sc.Name() != "Copy" {
+					if sc == nil || sc.Pkg == nil || sc.Pkg.Pkg.Path() != "reflect" || cname(sc) != "Copy" {
 						continue
 					}
 					dst, src := site.Common().Args[0], site.Common().Args[1]
@@ -491,9 +519,16 @@ func growthFamily(p *Prog) map[*ssa.Function]bool {
 		changed = false
 		for fn := range out {
 			for _, site := range callsIn(fn) {
-				if sc := site.Common().StaticCallee(); sc != nil && typeName(recvType(sc)) == "archetype" && !out[sc] {
-					out[sc] = true
-					changed = true
+				callees, _ := p.Callees(site)
+				for _, sc := range callees {
+					root := sc
+					for root.Parent() != nil {
+						root = root.Parent()
+					}
+					if typeName(recvType(root)) == "archetype" && !out[sc] {
+						out[sc] = true
+						changed = true
+					}
 				}
 			}
 		}
@@ -598,7 +633,7 @@ func c01r9(p *Prog, r *Reporter) {
 		var edges []edge
 		for _, site := range callsIn(fn) {
 			sc := site.Common().StaticCallee()
-			if sc == nil || !strings.HasPrefix(sc.Name(), "Set") || !strings.HasPrefix(typeName(recvType(sc)), "idMap") {
+			if sc == nil || !strings.HasPrefix(cname(sc), "Set") || !strings.HasPrefix(typeName(recvType(sc)), "idMap") {
 				continue
 			}
 			recv := apath(site.Common().Args[0])
